@@ -305,7 +305,9 @@ def supplyMonitors (cfgL : List Product) (prev real : State) (exp : Nat → Int)
   denoms.filterMap fun d =>
     let got := real.supply d - prev.supply d
     if got = exp d then none else
-      let name := if mint then "mint_delivers" else if burn then "burn_exact" else "interest_not_minted"
+      -- a mint that is not the new principal; supply created without any minting message (interest, fees, seizures …
+      -- must come out of existing supply); a burn that is not the principal retired
+      let name := if mint then "mint_delivers" else if got > exp d ∨ ¬ burn then "interest_not_minted" else "burn_exact"
       some s!"{name}\tsupply of denom {d} moved by {got}, the accepted messages account for {exp d}"
 
 def replaceProduct (l : List Product) (p : Product) : List Product :=
@@ -347,7 +349,12 @@ def handle (st : St) (seq : String) (f : List String) : St × List String :=
         -- the model accepts what the code rejects: keep the real (unchanged) state
         else (st', [s!"DIFF\t{seq}\tmodel accepts, impl rejects: {st'.lastMsg}"])
       | none =>
-        if outcome = "ok" then (st', [s!"DIFF\t{seq}\tmodel rejects, impl accepts: {st'.lastMsg}"])
+        let isMint := m.mints && !(match m with | .fund .. => true | _ => false)
+        let isBurn := match m with
+          | .repay .. | .close .. | .stableWithdraw .. | .settle .. | .settle1 .. | .esmReturn1 .. | .esmReturn2 .. | .esmCollector .. | .esmBurn .. => true
+          | _ => false
+        if outcome = "ok" then ({ st' with pendMint := st.pendMint || isMint, pendBurn := st.pendBurn || isBurn },
+                                [s!"DIFF\t{seq}\tmodel rejects, impl accepts: {st'.lastMsg}"])
         else (st', [])
     | _, _ => (st, [s!"BAD\t{seq}\tcannot parse msg/env"])
   | kind :: rest =>
